@@ -76,9 +76,38 @@ def run_case(check, seed, opts, replay=None, strict=False, trace=False):
     return res
 
 
+_COV = None
+
+
+def _cov_start():
+    """Reach measurement (tools/coverage.sh): with VERIF_COVERAGE=<dir> every
+    worker records which lines/branches of the code under test its runs
+    executed. Off by default; it changes no decision of the simulation."""
+    global _COV
+    d = os.environ.get("VERIF_COVERAGE")
+    if not d or _COV is not None:
+        return
+    import coverage
+    from . import boot
+    _COV = coverage.Coverage(
+        data_file=os.path.join(d, "cov"), data_suffix=str(os.getpid()),
+        branch=True, config_file=False,
+        include=[os.path.join(boot.REPO, "src", "wormhole", "*")],
+        omit=["*/test/*"])
+    _COV.start()
+
+
+def _cov_save():
+    if _COV is not None:
+        _COV.stop()
+        _COV.save()
+        _COV.start()
+
+
 def _worker_chunk(args):
     seeds, opts_list, wall_cap = args
     faulthandler.dump_traceback_later(wall_cap, exit=True)
+    _cov_start()
     if os.environ.get("VERIF_DEBUG_SIGUSR1"):
         import signal
         faulthandler.register(signal.SIGUSR1, all_threads=True)
@@ -129,6 +158,7 @@ def _worker_chunk(args):
                 (seed, opts, v, res["tape"].decisions, res["digest"],
                  [[sd, op] for sd, op in zip(seeds[:idx], opts_list[:idx])]))
     faulthandler.cancel_dump_traceback_later()
+    _cov_save()
     out["extra"] = {k: (sorted(v) if isinstance(v, set) else v)
                     for k, v in out["extra"].items()}
     return out
